@@ -11,18 +11,20 @@ From Coq Require Import List Ascii String ZArith NArith Bool Arith.
 From YP Require Import Outcome PyStr PyVal Doc Generated PathParser PathPrinter Searches PathsSearch.
 Import ListNotations.
 
-(* walking a location down the tree, by position *)
+(* one step from a container to a child, by position *)
+Inductive child_at : node -> ref -> node -> Prop :=
+  | child_map : forall i kvs k v, In (k, v) kvs -> child_at (NMap i kvs) (key_ref k) v
+  | child_seq : forall i els idx e, nth_error els idx = Some e -> child_at (NSeq i els) (RIdx idx) e.
+
+(* walking a location down the tree *)
 Inductive reach : node -> loc -> node -> Prop :=
   | reach_here : forall n, reach n [] n
-  | reach_map : forall i kvs k v l m,
-      In (k, v) kvs -> reach v l m -> reach (NMap i kvs) (key_ref k :: l) m
-  | reach_seq : forall i els idx e l m,
-      nth_error els idx = Some e -> reach e l m -> reach (NSeq i els) (RIdx idx :: l) m.
+  | reach_step : forall n r c l m, child_at n r c -> reach c l m -> reach n (r :: l) m.
 
-(* a scalar value / element at location l (the root itself is not a place:
-   it has no parent to be reported in) *)
+(* a scalar that is a mapping value or a sequence element, at location l (the
+   root itself is not a place: it has no parent to be reported in) *)
 Definition value_place (d : node) (l : loc) (v : pyval) : Prop :=
-  l <> [] /\ exists i, reach d l (NLeaf i v).
+  exists l0 p r i, l = (l0 ++ [r])%list /\ reach d l0 p /\ child_at p r (NLeaf i v).
 
 Definition key_place (d : node) (l : loc) (k : pyval) : Prop :=
   exists l0 i kvs kn v,
@@ -32,8 +34,9 @@ Definition member_place (d : node) (l : loc) (k : pyval) : Prop :=
   exists l0 i els m,
     l = (l0 ++ [member_ref m])%list /\ reach d l0 (NSet i els) /\ In m els /\ key_val m = k.
 
-(* the leaf descendants of a node: scalars reached through mappings and
-   sequences, and members of sets so reached *)
+(* the leaf descendants of a node: the node itself when it is a scalar, the
+   scalars reached through mappings and sequences, the members of sets so
+   reached *)
 Definition leaf_place (d : node) (l : loc) : Prop :=
   (exists i v, reach d l (NLeaf i v)) \/ (exists k, member_place d l k).
 
